@@ -20,7 +20,7 @@ CONSTANTS MaxSteps, EMIT
 R == <<"r">>
 DirU  == {R, <<"r","a">>, <<"r","ab">>, <<"r","a","a">>}
 FileU == {<<"r","m">>, <<"r","a","m">>, <<"r","a","__init__">>, <<"r","ab","m">>, <<"r","a","a","m">>, <<"r","a","a","ab">>}
-S(f, form, lv, mod, names) == [file |-> f, form |-> form, level |-> lv, module |-> mod, names |-> names, pos |-> <<>>]
+S(f, form, lv, mod, names) == [file |-> f, form |-> form, level |-> lv, module |-> mod, names |-> names, pos |-> <<>>, lay |-> "line"]
 StmtU == { S(<<"r","a","m">>, "import", 0, <<"r","ab","m">>, <<>>),
            S(<<"r","a","m">>, "from", 0, <<"r","ab">>, <<"m">>),
            S(<<"r","a","m">>, "from", 1, <<>>, <<"a">>),
@@ -113,7 +113,8 @@ StatementLaw == [][\A s \in stmts' \ stmts :
                          new == {<<s.file, t>> : t \in {t \in Named(P2, c, s).must : t \in InternalMods(P2, c) /\ ~Anc(t, s.file)}} IN
                      /\ MustImports(P2, c) = MustImports(P, c) \cup new
                      /\ \A q \in {<<"If.orelse">>, <<"Try.handlers", "FunctionDef.body">>} :
-                           Named(P2, c, [s EXCEPT !.pos = q]) = Named(P2, c, s)]_vars
+                           \A y \in {"line", "semicolon", "inline", "paren", "backslash"} :
+                              Named(P2, c, [s EXCEPT !.pos = q, !.lay = y]) = Named(P2, c, s)]_vars
 
 NonVacuous == (steps = MaxSteps) => TRUE
 EmitProject == EMIT => PrintT("PROJ " \o ToJson([dirs |-> SetToSeq(dirs), files |-> SetToSeq(files), stmts |-> SetToSeq(stmts)]))
